@@ -2479,3 +2479,50 @@ Proof.
   induction ops as [|o ops IH]; intros s HF Hg; cbn in *; [exact HF|].
   apply andb_true_iff in Hg. destruct Hg as [G1 G2]. apply IH; [apply FInv_fstep; assumption|exact G2].
 Qed.
+
+(* ====================================================================== *)
+(* C05 recorded_exactly_one                                               *)
+(* ====================================================================== *)
+Lemma record_count_one d t l :
+  excl3 (Rrow d t l) (Prow d t l) (Irow d t l) -> Rrow d t l \/ Prow d t l \/ Irow d t l -> record_count d t l = 1%nat.
+Proof.
+  intros [A [B C]] H. unfold record_count.
+  destruct (has_receipt_row d t l) eqn:ER, (has_pending_row d t l) eqn:EP, (has_invalid_row d t l) eqn:EI; cbn; try reflexivity; exfalso;
+    repeat match goal with
+           | H : has_receipt_row _ _ _ = true |- _ => apply has_receipt_row_iff in H
+           | H : has_pending_row _ _ _ = true |- _ => apply has_pending_row_iff in H
+           | H : has_invalid_row _ _ _ = true |- _ => apply has_invalid_row_iff in H
+           end; try tauto.
+  destruct H as [H|[H|H]]; [apply has_receipt_row_iff in H|apply has_pending_row_iff in H|apply has_invalid_row_iff in H]; congruence.
+Qed.
+
+Lemma owed_spec s t l : owed s t l = true ->
+  In (t, l) (f_due s) /\ Trow (c_db (f_c s)) t /\ ~ Mrow (c_db (f_c s)) t.
+Proof.
+  unfold owed. rewrite !andb_true_iff, negb_true_iff. intros [[A B] C]. split; [|split].
+  - apply existsb_exists in A. destruct A as [[a b] [Hin Heq]]. unfold pairN_eqb in Heq. cbn in Heq. apply andb_true_iff in Heq.
+    destruct Heq as [H1 H2]. apply N.eqb_eq in H1, H2. subst. exact Hin.
+  - apply tower_row_iff, B.
+  - intros H. apply proof_iff in H. congruence.
+Qed.
+
+(* after every completed operation of every guarded sequence: exactly one record per owed (tower, locator) *)
+Theorem recorded_exactly_one ops :
+  ops_fresh f_init ops = true ->
+  let s := frun f_init ops in
+  forall t l, owed s t l = true -> record_count (c_db (f_c s)) t l = 1%nat.
+Proof.
+  intros Hg s t l Ho. pose proof (FInv_frun ops f_init FInv_init Hg) as [_ [[_ [U E]] _]]. fold s in U, E.
+  destruct (owed_spec s t l Ho) as [Hin [HT HM]]. apply record_count_one; [apply U, HM|]. apply (E t l Hin), HM.
+Qed.
+
+(* ... also from a state reached through a restart after any guarded prefix, and for every state on the way *)
+Theorem recorded_exactly_one_prefixes ops1 ops2 :
+  ops_fresh f_init (ops1 ++ ops2) = true ->
+  let s := frun f_init ops1 in
+  forall t l, owed s t l = true -> record_count (c_db (f_c s)) t l = 1%nat.
+Proof.
+  intros Hg. apply recorded_exactly_one. clear - Hg. revert Hg. generalize f_init.
+  induction ops1 as [|o ops1 IH]; intros s0 Hg; cbn in *; [reflexivity|].
+  apply andb_true_iff in Hg. destruct Hg as [A B]. rewrite A. cbn. apply IH, B.
+Qed.
